@@ -31,7 +31,8 @@ _ALL = ["timing", "mutex", "queueing", "pool", "wakeup", "lifecycle", "buffer", 
 
 
 def strategy(tier):
-    return st.one_of(*[simgen.scenario(p) for p in _ALL])
+    heavy = (tier == "thorough")
+    return st.one_of(*([simgen.scenario(p) for p in _ALL] + [simgen.stress(heavy)] * 4))
 
 
 def serialize(case):
